@@ -62,7 +62,12 @@ type OpResult struct {
 	Released []string
 	Entry    *api.FloatingIP
 	Info     string
-	Before   *Snapshot // IPAM state right before the op's galaxy-ipam call (filter/bind)
+	Before   *Snapshot // IPAM state right before the op's galaxy-ipam call
+	BeforeBind *Snapshot // for sched: state between Filter and Bind
+	After    *Snapshot // state after Filter (sched/filter ops)
+	UnbindPod *corev1.Pod
+	Concurrent bool // ran inside an episode with >= 2 tasks
+	BoundNow bool // the pod's binding was applied by this op
 }
 
 // Snapshot is a copy of the IPAM memory.
@@ -294,10 +299,12 @@ func (x *Exec) opClosure(op Op, res *OpResult) (string, func()) {
 				p.Filtered = nil
 			}
 			w.mu.Unlock()
+			res.After = w.Snap()
 			if op.K == "sched" && err == nil && len(res.Nodes) > 0 {
 				node := res.Nodes[pick(len(res.Nodes), op.C)]
-				res.Before = w.Snap()
+				res.BeforeBind = w.Snap()
 				res.Err = w.Plugin.Bind(bindArgs(p, node))
+				res.BoundNow = res.Err == nil && p.Bound
 				res.Info += " bind=" + node
 			}
 		}
@@ -312,7 +319,9 @@ func (x *Exec) opClosure(op Op, res *OpResult) (string, func()) {
 		node := p.Filtered[pick(len(p.Filtered), op.B)]
 		return "bind:" + p.Name, func() {
 			res.Before = w.Snap()
+			res.BeforeBind = res.Before
 			res.Err = w.Plugin.Bind(bindArgs(p, node))
+			res.BoundNow = res.Err == nil && p.Bound
 			res.Info = "bind=" + node
 		}
 	case "unbind":
@@ -324,7 +333,9 @@ func (x *Exec) opClosure(op Op, res *OpResult) (string, func()) {
 		pu := w.Pending[i]
 		w.Pending = append(w.Pending[:i:i], w.Pending[i+1:]...)
 		res.Info = "unbind " + pu.pod.Name + " uid=" + string(pu.pod.UID)
+		res.UnbindPod = pu.pod
 		return "unbind:" + pu.pod.Name, func() {
+			res.Before = w.Snap()
 			err := w.Plugin.VerifUnbind(pu.pod)
 			res.Err = err
 			if err != nil {
@@ -337,7 +348,10 @@ func (x *Exec) opClosure(op Op, res *OpResult) (string, func()) {
 			}
 		}
 	case "resync":
-		return "resync", func() { res.Err = w.Plugin.VerifResyncPod() }
+		return "resync", func() {
+			res.Before = w.Snap()
+			res.Err = w.Plugin.VerifResyncPod()
+		}
 	case "syncips":
 		return "syncips", func() { w.Plugin.VerifSyncPodIPs() }
 	case "reload":
@@ -375,7 +389,7 @@ func (x *Exec) opClosure(op Op, res *OpResult) (string, func()) {
 		}
 	case "deliver":
 		w.mu.Lock()
-		if len(w.q2) == 0 {
+		for len(w.q2) == 0 && len(w.q1) > 0 {
 			w.syncPodListerLocked(1)
 		}
 		if len(w.q2) == 0 {
@@ -447,24 +461,50 @@ func (x *Exec) harnessOp(op Op, res *OpResult) bool {
 	w := x.W
 	switch op.K {
 	case "create":
-		if len(x.C.WLs) == 0 {
+		// construction over filtering: pick among the pod slots that do not exist right now
+		type slot struct {
+			wi   int
+			name string
+		}
+		var absent []slot
+		for wi := range x.C.WLs {
+			wl := &x.C.WLs[wi]
+			slots := 3
+			if wl.Kind == "dp" {
+				slots = 6
+			}
+			for j := 0; j < slots; j++ {
+				n := wl.PodName(j)
+				if w.truthPod(n) == nil {
+					absent = append(absent, slot{wi, n})
+				}
+			}
+		}
+		if len(absent) == 0 {
 			res.NoOp = true
 			return true
 		}
-		wi := pick(len(x.C.WLs), op.A)
-		wl := &x.C.WLs[wi]
-		slots := 3
-		if wl.Kind == "dp" {
-			slots = 6
-		}
-		name := wl.PodName(pick(slots, op.B))
-		p := w.CreatePod(wi, wl, name)
+		sl := absent[pick(len(absent), op.A*7+op.B)]
+		p := w.CreatePod(sl.wi, &x.C.WLs[sl.wi], sl.name)
 		if p == nil {
 			res.NoOp = true
 		} else {
 			res.Pod = p
-			res.Info = name + " " + p.UID
+			res.Info = sl.name + " " + p.UID
 		}
+	case "recreate":
+		// delete an existing pod and immediately create a new incarnation with the same name (statefulset
+		// controllers do exactly this)
+		c := x.existingPods(nil)
+		if len(c) == 0 {
+			res.NoOp = true
+			return true
+		}
+		old := c[pick(len(c), op.A)]
+		w.DeletePod(old.Name)
+		p := w.CreatePod(old.WL, &x.C.WLs[old.WL], old.Name)
+		res.Pod = p
+		res.Info = old.Name + " " + old.UID + " -> " + p.UID
 	case "phase":
 		c := x.existingPods(nil)
 		if len(c) == 0 {
@@ -496,7 +536,7 @@ func (x *Exec) harnessOp(op Op, res *OpResult) bool {
 		res.Info = p.Name
 	case "drop":
 		w.mu.Lock()
-		if len(w.q2) == 0 {
+		for len(w.q2) == 0 && len(w.q1) > 0 {
 			w.syncPodListerLocked(1)
 		}
 		if len(w.q2) == 0 {
@@ -767,7 +807,7 @@ func (x *Exec) quiesce(i int, op Op) *vcore.Failure {
 			return f
 		}
 	}
-	res := &OpResult{}
+	res := &OpResult{Before: w.Snap()}
 	w.runOp(func() { res.Err = w.Plugin.VerifResyncPod() })
 	x.count("op:quiesce")
 	x.Rec.Logf("%3d quiesce => %s", i, w.DumpState())
@@ -843,6 +883,7 @@ func (x *Exec) episode(i int, op Op) *vcore.Failure {
 		return stepFail
 	}
 	for j, res := range results {
+		res.Concurrent = len(results) >= 2
 		x.logOp(i, subs[j], res)
 		for _, o := range x.Obs {
 			if f := o.AfterOp(x, i, subs[j], res); f != nil {
